@@ -33,4 +33,8 @@ for mp in sorted(glob.glob(os.path.join(V,'hooks','overlay.d','*.map'))):
         rep[os.path.join(REPO,dst)]=os.path.join(V,'hooks',src)
 json.dump({"Replace":rep},open(os.path.join(V,'work','overlay.json'),'w'))
 PY
-timeout ${GO_BUILD_TIMEOUT:-1500} go build -tags verif -overlay "$V/work/overlay.json" -o "$V/work/bin/$cmd" "./cmd/$cmd"
+if [ "${2:-}" = "race" ]; then
+  timeout ${GO_BUILD_TIMEOUT:-1500} go build -race -tags verif -overlay "$V/work/overlay.json" -o "$V/work/bin/${cmd}race" "./cmd/$cmd"
+else
+  timeout ${GO_BUILD_TIMEOUT:-1500} go build -tags verif -overlay "$V/work/overlay.json" -o "$V/work/bin/$cmd" "./cmd/$cmd"
+fi
